@@ -248,6 +248,10 @@ func c01Probe(args []string) error {
 			emit(probe2(ps, n, rnd))
 		}
 	}
+	// first BoundingBox() calls that overlap, schedule forced through a held operand (c01conc.go)
+	for _, o := range c01OverlappingFirstCalls() {
+		emit(o)
+	}
 	return nil
 }
 
